@@ -61,6 +61,8 @@ type c13Input struct {
 	Server2   map[string]c13SV `json:"server2,omitempty"` // kind life: what the service can answer during the second start (nothing if dead2)
 	Dead2     bool             `json:"dead2,omitempty"`
 	CtxDone2  bool             `json:"ctx_done2,omitempty"` // the second start's context has ended before it begins (else: ends after 25 ms)
+	Sizes     []int            `json:"sizes,omitempty"`    // kind big: byte sizes of the secrets (values are pseudo-random from big_seed)
+	BigSeed   uint64           `json:"big_seed,omitempty"`
 	Conc      []c13Op          `json:"conc,omitempty"` // kind conc: calls made CONCURRENTLY after ops; the first one's Cache.Write is held
 	Note      string           `json:"note,omitempty"`
 	// trace / inject
